@@ -29,7 +29,8 @@ EXPLANATION = (
     "before/after statistics mean_fn_frequency, std_fn_frequency (distribution_fn) and mean_curve_peak "
     "(distribution_mc), convergence = |d_after - d_before|/d_before < 0.01 and |sigma_after - sigma_before| < 0.01, "
     "zero guard, every argument of the entry point forwarded under its own name, peak search on entry through "
-    "the object itself, result = maximum over azimuths. Not decided: invariance under window order and amplitude "
+    "the object itself - a search that, with the default find_peaks arguments, no path of update_peaks_bounded can skip - "
+    "result = maximum over azimuths. Not decided: invariance under window order and amplitude "
     "rescaling (depends on find_peaks and summation order); equality of decisions with an independent "
     "implementation on data.")
 
